@@ -30,6 +30,12 @@ func lengthsFor(g *rng.R, mtu, innerMTU int, nRandom int, bigCap int) []int {
 	for _, n := range []int{0, 1, 2, 3, 15, 16, 17, 18, 19, 31, 32, 33, 63, 64, 65} {
 		add(n)
 	}
+	// around powers of two, and a header's length below them: fixed-size scratch buffers and length bytes live there
+	for _, p := range []int{128, 256, 512, 1024, 4096} {
+		for _, d := range []int{-9, -8, -2, -1, 0, 1} {
+			add(p + d)
+		}
+	}
 	if innerMTU > 0 {
 		for _, hdr := range []int{0, 3, 15, 24} { // layer header sizes: fragswarm 3..15, mbapp 24
 			part := innerMTU - hdr
